@@ -8,6 +8,9 @@ CHECKS = {
  "C03": ("proptest-driven choice-sequence PBT of key triples against a reference model + generated-schedule race lane + bounded-exhaustive enumeration of small label lists",
          "Generated-input search: millions of key triples built through 9 construction paths over a colliding alphabet, checked for Eq/Ord/Hash coherence, model agreement and transitivity; first-use get_hash races explored under harness-owned schedules; all pairs of label lists of length <=3 over 2x2 labels enumerated. Held-on-everything-explored, not a proof.",
          "Trusts the harness's reference model (name equal and label multisets equal for distinct names); SC interleavings at hook granularity only.", "DESIGN.md §6 C03"),
+ "C16": ("proptest-driven model-based PBT of push/drain cycles + generated-schedule exploration of pushes concurrent with drains + statistical retention test over independent trials",
+         "Sequential histories over capacities {0,1,2,3,8,64,1024} against an exact multiset/count/sample-rate model; pushes racing a drain under harness-owned schedules with a history oracle (nothing fabricated, stale or yielded twice, never above capacity); per-position retention frequencies tested at 6 sigma. One known finding (drain reads a claimed-but-unwritten slot) is tolerated by exact signature only.",
+         "Uniformity uses the library's own OsRng-seeded PRNG (not a function of VERIF_SEED); SC interleavings at hook granularity only; statistical test, not a decision.", "DESIGN.md §6 C16"),
 }
 PENDING_REASON = "check not built yet in this round of work (planned in DESIGN.md §6; property-based testing applies)"
 def main():
